@@ -83,8 +83,8 @@ W_NoEmptyFrame == ~(Done /\ \E i \in 1..Len(msg) : msg[i] = <<>>)
 W_NoCmd        == ~(Done /\ cmd # <<>>)
 W_NoCoalesced  == ~(avail - pos >= 3)
 WNames == <<"W_NoLongFrame", "W_NoSplitRead", "W_NoEmptyFrame", "W_NoCmd", "W_NoCoalesced">>
-WVals  == <<W_NoLongFrame, W_NoSplitRead, W_NoEmptyFrame, W_NoCmd, W_NoCoalesced>>
+WVal(k) == CASE k = 1 -> W_NoLongFrame [] k = 2 -> W_NoSplitRead [] k = 3 -> W_NoEmptyFrame [] k = 4 -> W_NoCmd [] k = 5 -> W_NoCoalesced
 ASSUME \A k \in 1..Len(WNames) : TLCSet(k, FALSE)
-TrackW == \A k \in 1..Len(WNames) : IF ~WVals[k] /\ ~TLCGet(k) THEN TLCSet(k, TRUE) ELSE TRUE
+TrackW == \A k \in 1..Len(WNames) : IF TLCGet(k) THEN TRUE ELSE IF ~WVal(k) THEN TLCSet(k, TRUE) ELSE TRUE
 WitnessesSeen == PrintT("INFO " \o ToJson([unseen |-> { WNames[k] : k \in { j \in 1..Len(WNames) : ~TLCGet(j) } }]))
 =============================================================================
